@@ -20,4 +20,14 @@ KERNELS = [
     K("src_c06_surrogate_fit_size", "src/tuner/surrogate.cpp",
       r"function_t\(\"quadratic surrogate fitting function\",\s*(.*?)\)\s*,\s*m_loss",
       [(r"p\.cols\(\)", "n")], [("n", "Z")], "c06", ["C06"]),
+    # chained CB3 I / II: the two tests that select the piece whose gradient is returned (after /repo 114b02b: non-strict, so that
+    # on a tie an ACTIVE piece is selected); read structurally over Z, pinned to the model's Rgeb tests in C06_Proofs.v
+    K("src_c06_cb3I_test1", "src/function/benchmark/chained_cb3I.cpp", r"\bif \((v1 [<>=]+ std::max\(v2, v3\))\)", [],
+      [("v1", "Z"), ("v2", "Z"), ("v3", "Z")], "c06", ["C06"]),
+    K("src_c06_cb3I_test2", "src/function/benchmark/chained_cb3I.cpp", r"else if \((v2 [<>=]+ std::max\(v1, v3\))\)", [],
+      [("v1", "Z"), ("v2", "Z"), ("v3", "Z")], "c06", ["C06"]),
+    K("src_c06_cb3II_test1", "src/function/benchmark/chained_cb3II.cpp", r"\bif \((fx1 [<>=]+ std::max\(fx2, fx3\))\)", [],
+      [("fx1", "Z"), ("fx2", "Z"), ("fx3", "Z")], "c06", ["C06"]),
+    K("src_c06_cb3II_test2", "src/function/benchmark/chained_cb3II.cpp", r"else if \((fx2 [<>=]+ std::max\(fx1, fx3\))\)", [],
+      [("fx1", "Z"), ("fx2", "Z"), ("fx3", "Z")], "c06", ["C06"]),
 ]
